@@ -4,6 +4,11 @@ import json, sys
 pid = sys.argv[1]
 wt = sys.argv[2]
 out = sys.argv[3]
+start = int(sys.argv[4]) if len(sys.argv) > 4 else 1
+import glob, os
+avoid = []
+for f in sorted(glob.glob('/verif/seeded/%s_*/meta.json' % pid)):
+  avoid.append(json.load(open(f))['breaks'])
 p = [json.loads(l) for l in open('/verif/properties.jsonl') if json.loads(l)['id'] == pid][0]
 print(f"""You are helping evaluate a verification effort for google/pytype (a Python static type inferencer/checker). Your job: act as a careful "bug seeder". You get ONE semantic property that pytype is supposed to satisfy, and your own scratch git worktree of the repository at {wt} (already created; work ONLY there — never touch /repo or /verif, never read anything under /verif). Read /tmp/envkit/README.md first: it explains how to build the C++ extension and run pytype offline in this sandbox.
 
@@ -25,11 +30,12 @@ Produce THREE independent, realistic source changes to pytype (each a separate p
 3. looks like a plausible mistake or well-meant "optimisation"/refactoring a maintainer could make — not sabotage like `return False` at the top of a function;
 4. needs something SPECIFIC to manifest — an unusual input shape, a multi-step sequence of operations, a particular size/boundary, a particular ordering, or two cooperating sites that each look fine alone — rather than something any ordinary use would expose at once. Avoid changes that break nearly every input.
 
-For each change k in 1..3 write into {out}/{pid}_k/ :
+{("Ideas that were already used by earlier seeders and must NOT be repeated (find different code sites and different mechanisms):" + chr(10) + chr(10).join("- " + a for a in avoid) + chr(10)) if avoid else ""}
+For each change k in {start}..{start+2} write into {out}/{pid}_k/ :
 - patch.diff   — `git -C {wt} diff` of ONLY that change (source files only; no build products). Make sure `git -C {wt} apply --check` would accept it on a clean HEAD.
 - demo.py      — a small self-contained program (run as `cd {wt} && PYTHONPATH={wt} TYPESHED_HOME=/tmp/envkit/typeshed_min /venv/bin/python {out}/{pid}_k/demo.py`) that exits 0 and prints PASS when the property holds on its input and exits 1 and prints FAIL when it is violated. It must FAIL with the patch applied and PASS on the clean worktree. It should import pytype from the worktree via PYTHONPATH (if it needs the C++ extension, say so in notes; the extension must be rebuilt with /tmp/envkit/build_ext.sh {wt} after applying/reverting a patch that touches .cc/.h files).
 - notes.md     — 5-10 lines: what the change is, why it breaks the property, what specific circumstance is needed for it to manifest, and the exact commands you ran (demo with and without the patch, and the test-suite result with the patch).
 
-Work method: make change 1 in the worktree, verify (demo FAILs, tests pass), save the diff, then `git -C {wt} checkout -- .` and verify the demo PASSes on the clean tree; repeat for 2 and 3. Leave the worktree clean (no uncommitted changes) when you finish; do not commit anything. Do not delete the worktree. Be efficient: do not spend time on broad exploration of the codebase beyond the anchored files.
+Work method: make change 1 in the worktree, verify (demo FAILs, tests pass), save the diff, then `git -C {wt} checkout -- .` and verify the demo PASSes on the clean tree; repeat for the other two. Leave the worktree clean (no uncommitted changes) when you finish; do not commit anything. Do not delete the worktree. Be efficient: do not spend time on broad exploration of the codebase beyond the anchored files.
 
 Final answer: for each of the three changes one line: directory, files touched, one-sentence description, and whether you verified FAIL-with/PASS-without and the 171-pass baseline.""")
